@@ -7,6 +7,7 @@ package gmodel
 
 import (
 	"fmt"
+	"strconv"
 	"strings"
 )
 
@@ -527,7 +528,9 @@ func (p *Prod) GoDecls() string {
 		tags := q.Tags()
 		for i, f := range q.Fields {
 			if strings.ContainsAny(tags[i], "`\n") {
-				panic("tag not representable in a raw string: " + tags[i])
+				// not representable as a raw string literal: use an interpreted one
+				fmt.Fprintf(&sb, "\t%s %s %s\n", f.Name, f.GoType(), strconv.Quote(tags[i]))
+				continue
 			}
 			fmt.Fprintf(&sb, "\t%s %s `%s`\n", f.Name, f.GoType(), tags[i])
 		}
